@@ -76,6 +76,10 @@ class Conservation:
         w0, w1, a = ev['w0'], ev['w1'], ev['action']
         if not M.inside(w0, w0['agent'][0], w0['agent'][1]):
             return
+        sb = common.seam_break(ev) if cl.proxied else None
+        if sb is not None:
+            sim.violate('conservation', 'state_changed_outside_components', sb[0], common.world_diff(sb[1], sb[2]), f'{a}: the state differs {sb[0]} ({common.world_diff(sb[1], sb[2])})')
+            return
         chain = cl.mspec['chain']
         if cl.proxied and len(ev['complog']) == len(chain):
             for (name, before, after, _) in ev['complog']:
